@@ -1,6 +1,8 @@
-// queuemem replays every transition of the Queue model (TLC output on stdin) into the real in-memory
-// session queue (persistence/queue/mem) and compares, through the public queue.Store API and a recording
-// queue.Notifier only:
+// queuemem replays every transition of the Queue model (TLC output on stdin) into the real session queue -
+// persistence/queue/mem (-target mem) or persistence/queue/redis over the in-process RESP fake (-target redis;
+// an Init is then issued on a new Queue object over the same key, -reinit new, or on the same object; with
+// -reinit restart the object is replaced right after every Close, as a broker restart does) - and
+// compares, through the public queue.Store API and a recording queue.Notifier only:
 //
 //	(a) what the operation returned,
 //	(b) the Notifier calls it made (dropped element + reason, sums of the queue / in-flight deltas),
@@ -96,7 +98,7 @@ type Trans struct {
 
 var (
 	target    = flag.String("target", "mem", "mem | redis (persistence/queue/redis over the in-process RESP fake)")
-	reinit    = flag.String("reinit", "new", "redis: Init is called on a `new` Queue object over the same key (restart / new connection) or on the `same` object")
+	reinit    = flag.String("reinit", "new", "redis: Init is called on a `new` Queue object over the same key, on the `same` object, or `restart`: every Close is followed by a broker restart (new object, no Init until the next Init operation)")
 	maxQ      = flag.Int("max", 2, "MaxQueuedMsg")
 	ieMode    = flag.String("ie", "off", "inflight expiry: off | instant | never")
 	probeN    = flag.Int("proben", 8, "maxSize of the probe's ReadInflight")
@@ -407,7 +409,17 @@ func (r *real) apply(op *Op) got {
 		}
 		return r.call(func() ([]*queue.Elem, string) { return nil, errRes(q.Init(r.initOpts(op.Clean))) })
 	case "close":
-		return r.call(func() ([]*queue.Elem, string) { return nil, errRes(q.Close()) })
+		g := r.call(func() ([]*queue.Elem, string) { return nil, errRes(q.Close()) })
+		if *target == "redis" && *reinit == "restart" {
+			// the broker restarts while the session is offline: server.New creates a Queue object over the stored key
+			// (no Init until the client reconnects); messages for the offline session are added to that object
+			if nq, err := r.fresh(); err == nil {
+				r.q = nq
+			} else {
+				g.res = "err:" + err.Error()
+			}
+		}
+		return g
 	}
 	return got{res: "err:unknown op " + op.Op}
 }
